@@ -6,4 +6,5 @@
 
 pub mod compaction;
 pub mod engine;
+pub mod oracle;
 pub mod wal;
